@@ -29,6 +29,7 @@ def run(prog, an, rep):
                'runs, groupby on non-adjacent branches) and eviction timing '
                'are not evaluated')
     rep.run_rules(prog, an, [guarded_cache_writes, slot_agreement,
+                             every_status_stored,
                              cache_trust,
                              branch_state_table, state_precedence,
                              unwanted_workflows, lru_rules])
@@ -175,6 +176,57 @@ def guarded_cache_writes(prog, an, rep):
                   'invalidated from %s' % callers)
 
 
+def every_status_stored(prog, an, rep):
+    """What the host reports for a commit is stored for every build key:
+    a store made from inside any() / all() / next() over a generator stops
+    at the first answer that settles the quantifier, and the other keys are
+    never cached (their URL and description are read from the cache only)."""
+    R = 'C17.MPT.every-status-stored'
+    writers = {f.qname for f, _, _ in cache_calls(prog, 'set')}
+    n = 0
+    for f in prog.all_funcs():
+        if f.module.name == 'bert_e.git_host.mock':
+            continue
+        pm = None
+        for call in prog.calls_in(f):
+            cal = prog.callee(f, call)
+            direct = isinstance(call.func, ast.Attribute) and \
+                call.func.attr == 'set' and \
+                _cache_key(call.func.value, f) is not None
+            if not direct and not (cal[0] == 'func' and cal[1] in writers
+                                   and cal[1] != f.qname):
+                if not (isinstance(call.func, ast.Attribute) and any(
+                        w.rpartition('.')[2] == call.func.attr and
+                        cal[0] != 'func' for w in writers)):
+                    continue
+            n += 1
+            if pm is None:
+                pm = parent_map(f.node)
+            up = call
+            lazy = None
+            while up in pm:
+                par = pm[up]
+                if isinstance(par, ast.GeneratorExp):
+                    outer = pm.get(par)
+                    if isinstance(outer, ast.Call) and \
+                            isinstance(outer.func, ast.Name) and \
+                            outer.func.id in ('any', 'all', 'next') and \
+                            par in outer.args:
+                        lazy = outer.func.id
+                        break
+                if isinstance(par, ast.BoolOp) and up is not par.values[0] \
+                        and isinstance(pm.get(par), (ast.Expr, ast.Assign)):
+                    pass
+                up = par
+            rep.evaluated()
+            rep.check(lazy is None, R, f.qname + ': cache stores are not '
+                      'cut short', f.where(call), 'the status cache is '
+                      'written from inside %s(...) over a generator: the '
+                      'statuses after the first one that settles it are not '
+                      'stored' % lazy)
+    rep.floor('C17 cache store sites (direct or through a helper)', n, 6)
+
+
 def _same_status(ck, cv):
     """Is the slot named ck the one the status cv belongs to?  ck, cv:
     canonical texts of the key of the slot and of the value stored."""
@@ -213,6 +265,51 @@ def _same_status(ck, cv):
     return False
 
 
+def _bind_call(f, call):
+    """{parameter of f: argument expression} for a call of f (self
+    skipped for a method reached through an attribute)."""
+    params = list(f.params)
+    if f.cls is not None and params and isinstance(call.func, ast.Attribute) \
+            and not any(src(d) == 'staticmethod'
+                        for d in f.node.decorator_list):
+        params = params[1:]
+    out = {}
+    for p_, a in zip(params, call.args):
+        if isinstance(a, ast.Starred):
+            break
+        out[p_] = a
+    for k in call.keywords:
+        if k.arg is not None:
+            out[k.arg] = k.value
+    return out
+
+
+def _paired_items(g, call, ka, va):
+    """Are ka, va the two variables of one `for k, v in <d>.items()` (a
+    loop or a comprehension) around the call?"""
+    if not (isinstance(ka, ast.Name) and isinstance(va, ast.Name)):
+        return False
+    pm = parent_map(g.node)
+    up = call
+    while up in pm:
+        up = pm[up]
+        gens = []
+        if isinstance(up, (ast.ListComp, ast.SetComp, ast.GeneratorExp,
+                           ast.DictComp)):
+            gens = [(g_.target, g_.iter) for g_ in up.generators]
+        elif isinstance(up, ast.For):
+            gens = [(up.target, up.iter)]
+        for tgt, it in gens:
+            if isinstance(tgt, ast.Tuple) and len(tgt.elts) == 2 and \
+                    all(isinstance(e, ast.Name) for e in tgt.elts) and \
+                    [e.id for e in tgt.elts] == [ka.id, va.id] and \
+                    isinstance(it, ast.Call) and \
+                    isinstance(it.func, ast.Attribute) and \
+                    it.func.attr == 'items' and not it.args:
+                return True
+    return False
+
+
 def slot_agreement(prog, an, rep):
     """A status is stored in the slot of its own build key: a green status
     of another key written there would answer for this key from then on."""
@@ -234,7 +331,35 @@ def slot_agreement(prog, an, rep):
         # loop variables by what they range over
         ak = canon(f, kexpr) if kexpr is not None else key
         av = canon(f, call.args[1])
-        rep.check(_same_status(ck, cv) or _same_status(ak, av), R, f.qname + ': the slot is that of '
+        ok = _same_status(ck, cv) or _same_status(ak, av)
+        if not ok and kexpr is not None and isinstance(kexpr, ast.Name) and \
+                isinstance(call.args[1], ast.Name) and \
+                kexpr.id in f.params and call.args[1].id in f.params and \
+                not stores_to(f, kexpr.id) and \
+                not stores_to(f, call.args[1].id):
+            # the store is in a helper given the key and the status: they
+            # must belong together where the helper is called
+            sites = []
+            for g in prog.all_funcs():
+                for x in prog.calls_in(g):
+                    cal = prog.callee(g, x)
+                    if (cal[0] == 'func' and cal[1] == f.qname) or (
+                            isinstance(x.func, ast.Attribute) and
+                            x.func.attr == f.name and cal[0] != 'func'):
+                        sites.append((g, x))
+            ok = bool(sites)
+            for g, x in sites:
+                b = _bind_call(f, x)
+                ka, va = b.get(kexpr.id), b.get(call.args[1].id)
+                if ka is None or va is None:
+                    ok = False
+                    continue
+                ok = ok and (
+                    _paired_items(g, x, ka, va) or
+                    _same_status(flow_canon(an, g, ka),
+                                 flow_canon(an, g, va)) or
+                    _same_status(canon(g, ka), canon(g, va)))
+        rep.check(ok, R, f.qname + ': the slot is that of '
                   'the status stored', f.where(call),
                   'BUILD_STATUS_CACHE[%s].set(., %s): the status stored is '
                   'not tied to the build key of the slot (slot %s, status '
